@@ -580,6 +580,26 @@ pub fn gen_dag(rng: &mut Rng, p: &DagParams) -> Dag {
     d
 }
 
+/// A wide frontier: a short spine below the init command and `leaves` leaf commands hanging off
+/// random spine positions (no merges). Every leaf is a lazy head; because ids are pseudo-random
+/// the heads that sort late often branch off *below* the common ancestor of the ones that sort
+/// early, and any cap on the number of heads folded (hello head, LCA fold) changes the result.
+pub fn gen_wide_dag(rng: &mut Rng, p: &DagParams, leaves: usize) -> Dag {
+    let mut d = Dag::default();
+    d.nodes.push(Node { parents: vec![], prio: Priority::Init, body: vec![Op::Set(0, 0), Op::Append] });
+    let spine = rng.range(1, 4) as usize;
+    for i in 0..spine {
+        let body = gen_body(rng, p);
+        d.nodes.push(Node { parents: vec![i], prio: Priority::Basic(rng.below(p.prios as u64) as u32), body });
+    }
+    for _ in 0..leaves {
+        let parent = rng.below(spine as u64 + 1) as usize;
+        let body = gen_body(rng, p);
+        d.nodes.push(Node { parents: vec![parent], prio: Priority::Basic(rng.below(p.prios as u64) as u32), body });
+    }
+    d
+}
+
 /// Turn an abstract DAG into real commands (ids from `salt` and the node index, merge ids from
 /// the parents like `KPolicy::merge`).
 pub fn realize(d: &Dag, salt: u64) -> Vec<KCmd> {
